@@ -380,17 +380,27 @@ func TestVerifC15(t *testing.T) {
 	}{{"no header", nil}, {"s2s-request-translation=false", bypass}, {"x-s2s-intra-proxy=1", intra}, {"s2s-request-translation=false + x-s2s-intra-proxy=1", metadata.Join(bypass, intra)}}
 	// the policy's second list (allowed namespaces) must not change any method verdict: every family is run with and
 	// without it; with it, requests name the allowed namespace wherever they have a namespace field
-	nsLists := [][]string{nil, {"allowed-ns"}}
+	// ... and neither must the other features of the connection: every family is also run with a namespace translation
+	// configured (the translation step sits in front of the ACL in the interceptor chain, and has a bypass header)
+	type policyShape struct {
+		nsList      []string
+		translation bool
+	}
+	shapes := []policyShape{{nil, false}, {[]string{"allowed-ns"}, false}, {nil, true}}
 	for _, transport := range transports {
 		for _, f := range fams {
-			for _, nsList := range nsLists {
+			for _, shape := range shapes {
+				nsList := shape.nsList
 				if transport != "tcp" && !vrt.Thorough() && vrt.ReplayPath() == "" {
 					// quick: the mux transports get the base families and the singleton / complement lists of two methods
-					if nsList != nil || strings.Contains(f.name, ":") && !strings.HasSuffix(f.name, ":DescribeCluster") && !strings.HasSuffix(f.name, ":StreamWorkflowReplicationMessages") {
+					if nsList != nil || shape.translation || strings.Contains(f.name, ":") && !strings.HasSuffix(f.name, ":DescribeCluster") && !strings.HasSuffix(f.name, ":StreamWorkflowReplicationMessages") {
 						continue
 					}
 				}
 				cfg := config.ClusterConnConfig{ACLPolicy: &config.ACLPolicy{AllowedMethods: config.AllowedMethods{AdminService: f.list}, AllowedNamespaces: nsList}}
+				if shape.translation {
+					cfg.NamespaceTranslation = config.StringTranslator{Mappings: []config.StringMapping{{Local: "some-local-ns", Remote: "some-remote-ns"}}}
+				}
 				cl, err := vfStartClusterOn(cfg, transport)
 				if err != nil {
 					res.Violate("acl/cluster-connection-fails", transport+": "+err.Error(), map[string]any{"family": f.name, "transport": transport})
@@ -406,6 +416,9 @@ func TestVerifC15(t *testing.T) {
 						replay := map[string]any{"family": f.name, "method": mi.Full, "header": hdr, "transport": transport}
 						hdr = transport + ", " + hdr
 						var req proto.Message
+						if shape.translation {
+							hdr += ", namespace translation configured"
+						}
 						if nsList != nil {
 							hdr += ", allowedNamespaces=[allowed-ns]"
 							req = mi.In.New().Interface()
@@ -477,7 +490,7 @@ func TestVerifC15(t *testing.T) {
 	res.Set("evaluations", evals)
 	res.Set("distinct_nontrivial", nontrivial)
 	res.Set("allow_list_families", int64(len(fams)))
-	res.Set("rule", "real ClusterConnection (remote side on TCP, mux-server and mux-client transports over loopback; for the mux transports the harness owns the peer end of the yamux session) with an ACL policy: allow-list families {empty, full, non-existent names only, singleton and complement-of-singleton for the selected admin methods (all of them in thorough)} x every method of AdminService and WorkflowService (streaming method opened as a stream) x {no header, s2s-request-translation=false, x-s2s-intra-proxy=1, both} x {policy without / with an allowedNamespaces list (requests then name the allowed namespace where they have the field; quick: TCP only)}; plus every unary admin method through the outbound server; non-trivial = cases that must be refused")
+	res.Set("rule", "real ClusterConnection (remote side on TCP, mux-server and mux-client transports over loopback; for the mux transports the harness owns the peer end of the yamux session) with an ACL policy: allow-list families {empty, full, non-existent names only, singleton and complement-of-singleton for the selected admin methods (all of them in thorough)} x every method of AdminService and WorkflowService (streaming method opened as a stream) x {no header, s2s-request-translation=false, x-s2s-intra-proxy=1, both} x {policy without / with an allowedNamespaces list (requests then name the allowed namespace where they have the field), connection with a namespace translation configured; quick: TCP only}; plus every unary admin method through the outbound server; non-trivial = cases that must be refused")
 	res.Set("exhaustive", true)
 	res.Set("transports", "tcp, mux-server, mux-client (quick: the mux transports get the base families and the singleton/complement lists of DescribeCluster and StreamWorkflowReplicationMessages; thorough: every family on every transport)")
 	res.Sample(map[string]any{"family": fams[len(fams)-1].name, "method": "/temporal.server.api.adminservice.v1.AdminService/DescribeCluster"})
